@@ -43,7 +43,7 @@ CodeFrags ==
 \* inside a quoted string literal
 StrFrags(q) ==
     {F(x, "") : x \in {"x", " ", "U+00E9;", "U+1F600;", "\\n", "\\u{41}", "\\u{", "\\u{110000}", "\\x4", "\\x41", "\\xff", "\\\n  ", "\\'", "\\\"",
-                       "\\{", "}", "\n", "$", "#", "\\", "\\q"}}
+                       "\\{", "}", "\n", "$", "#", "\\", "\\q", "\\U+00E9;", "\\U+65E5;x", "\\u{fffffffff}", "\\u{ffffffff}"}}
     \cup {F("{", "push:tmpl")}
     \cup {F("'", IF q = "sq" THEN "pop" ELSE ""), F("\"", IF q = "dq" THEN "pop" ELSE "")}
 
